@@ -21,14 +21,14 @@ EXTENDS {m}, Json, TLC
 VARIABLE l
 TraceLog == ndJsonDeserialize("trace.ndjson")
 TInit == l = 2 /\\ Init /\\ cfg = TraceLog[1].cfg /\\ ev = TraceLog[1]
-Explain(e) == PrintT(<<"EXPECTED", ToJson([l |-> l, model |-> e])>>) /\\ FALSE
+VerifTraceExplain(e) == PrintT(<<"EXPECTED", ToJson([l |-> l, model |-> e])>>) /\\ FALSE
 TNext == /\\ l <= Len(TraceLog)
          /\\ l' = l + 1
          /\\ Do(TraceLog[l])
-         /\\ (ev' = TraceLog[l] \\/ Explain(ev'))
+         /\\ (ev' = TraceLog[l] \\/ VerifTraceExplain(ev'))
 TSpec == TInit /\\ [][TNext]_<<vars, l>>
 TView == <<vars, l>>
-Accepted == LET d == TLCGet("stats").diameter IN
+VerifTraceAccepted == LET d == TLCGet("stats").diameter IN
             PrintT(<<"DEPTH", ToString(d)>>) /\\ d = Len(TraceLog)
 ====
 """
@@ -94,7 +94,7 @@ def validate(specdir, module, tracepath, cfgkind="trace", timeout=900):
     """Validate one NDJSON file (many traces, each starting with an op=reset line).
     returns dict(accepted, matched, total, offending(line dict or None), expected(list), tlc)"""
     cfg = _strip_props(read_cfg(specdir, module, cfgkind))
-    cfg = "INIT TInit\nNEXT TNext\n" + cfg + "\nPOSTCONDITION Accepted\n"
+    cfg = "INIT TInit\nNEXT TNext\n" + cfg + "\nPOSTCONDITION VerifTraceAccepted\n"
     text = TRACE_TMPL.format(m=module)
     with open(tracepath) as fh:
         lines = [ln for ln in fh.read().splitlines() if ln.strip()]
